@@ -7,9 +7,14 @@ package alpm
 
 //@ func compareALMPDigits
 //@   comparator a ~ b                                     [C01]
+//@   ensures shorter: a != "" && b != "" && len(strings.TrimLeft(a, "0")) < len(strings.TrimLeft(b, "0")) ==> result == -1   [C03]
+//@   ensures longer: a != "" && b != "" && len(strings.TrimLeft(a, "0")) > len(strings.TrimLeft(b, "0")) ==> result == 1     [C03]
+//@   ensures same-length: a != "" && b != "" && len(strings.TrimLeft(a, "0")) == len(strings.TrimLeft(b, "0")) ==> result == strings.Compare(strings.TrimLeft(a, "0"), strings.TrimLeft(b, "0"))   [C03]
 
 //@ func compareSegments
 //@   comparator a ~ b                                     [C01]
+//@   ensures both-numeric: a != "" && b != "" && unicode.IsDigit(a[0]) && unicode.IsDigit(b[0]) ==> result == compareALMPDigits(a, b)   [C03]
+//@   ensures number-above-letters: a != "" && b != "" && unicode.IsDigit(a[0]) && !unicode.IsDigit(b[0]) ==> result == 1   [C03]
 
 // prefix/suffix special case mixed with segment comparison: bounded stand-in.
 //@ func compareALMPVersionString
@@ -19,6 +24,9 @@ package alpm
 // vercmp(8) defines a missing pkgrel as equal to any pkgrel; triples mixing both kinds are excluded by the property.
 //@ func (*Version).Compare
 //@   comparator v ~ other where v.hasPkgrel == other.hasPkgrel   [C01]
+//@   ensures epoch: v.epoch != other.epoch ==> result == (v.epoch < other.epoch ? -1 : 1)   [C03]
+//@   ensures pkgver: v.epoch == other.epoch && compareALMPVersionString(v.pkgver, other.pkgver) != 0 ==> result == compareALMPVersionString(v.pkgver, other.pkgver)   [C03]
+//@   ensures pkgrel: v.epoch == other.epoch && compareALMPVersionString(v.pkgver, other.pkgver) == 0 && v.hasPkgrel && other.hasPkgrel ==> result == (v.pkgrel < other.pkgrel ? -1 : (v.pkgrel > other.pkgrel ? 1 : 0))   [C03]
 
 // ---- constructors: value xor error (C06); the fact is structural (untagged) because callers rely on it
 
